@@ -57,11 +57,11 @@ VARIABLES now, conf,
           old,         \* responses abandoned without being closed yet (closed by the generator's finalisation)
           mustclose,   \* responses that the code closes synchronously (pause, cancellation): urgent
           blockers,    \* the toggles of operator_paused that are on
-          pausedAt,    \* when it last turned from off to on
+          fresh,       \* the set has turned from off to on in this very instant
           noticed,     \* the pause-waiter of the current streaming_block is done (a few loop iterations after the toggle)
           relisted     \* ghost: a listing has been done since the watcher last left its streaming_block
 kvars == <<pc, wake, att, since, conn, opened, act, pend, old, mustclose, noticed, relisted>>
-vars == <<now, conf, kvars, blockers, pausedAt>>
+vars == <<now, conf, kvars, blockers, fresh>>
 
 Backoff == conf.backoff   EB == conf.eb   RA == conf.ra   CliT == conf.cli   InaT == conf.ina
 Retriable == {"429", "429ra", "503", "403", "conn", "timeout"}
@@ -70,12 +70,12 @@ Transport == {"conn", "timeout"}
 ObjectTypes == {"ADDED", "MODIFIED", "DELETED"}
 Paused == blockers # {}
 \* a pause takes a few iterations of the event loop to reach the watcher: within its own instant both orders are observed
-PausedForSure == Paused /\ pausedAt < now
+PausedForSure == Paused /\ ~fresh
 
 Init == /\ conf \in ConfSet /\ now = 0 /\ pc = "init" /\ wake = 0 /\ att = 0 /\ since = 0 /\ conn = 0 /\ opened = 0 /\ act = 0
-        /\ pend = <<>> /\ old = {} /\ mustclose = {} /\ blockers = {} /\ pausedAt = 0 /\ noticed = FALSE /\ relisted = FALSE
+        /\ pend = <<>> /\ old = {} /\ mustclose = {} /\ blockers = {} /\ fresh = FALSE /\ noticed = FALSE /\ relisted = FALSE
 
-env == <<now, conf, blockers, pausedAt>>
+env == <<now, conf, blockers, fresh>>
 LeaveBlock == pc' = "list" /\ wake' = now + Backoff /\ att' = 0 /\ noticed' = FALSE /\ relisted' = FALSE
 
 Spawn == /\ pc = "init" /\ pc' = "list" /\ wake' = now /\ att' = 0
@@ -143,8 +143,8 @@ End(w, how) ==
 
 \* a toggle of operator_paused is turned on / off (peering); the watcher learns of it a few loop iterations later (Notice)
 Pause(b, on) ==
-  /\ IF on THEN b \notin blockers /\ blockers' = blockers \cup {b} /\ pausedAt' = (IF Paused THEN pausedAt ELSE now)
-     ELSE b \in blockers /\ blockers' = blockers \ {b} /\ UNCHANGED pausedAt
+  /\ IF on THEN b \notin blockers /\ blockers' = blockers \cup {b} /\ fresh' = (IF Paused THEN fresh ELSE TRUE)
+     ELSE b \in blockers /\ blockers' = blockers \ {b} /\ UNCHANGED fresh
   /\ UNCHANGED <<now, conf, kvars>>
 InBlock == pc \in {"open", "stream"} \/ (pc = "list" /\ att > 0)
 Notice == /\ Paused /\ ~noticed /\ InBlock
@@ -164,7 +164,7 @@ Urgent == \/ CallDue
           \/ mustclose # {}
           \/ pend # <<>> /\ pc \notin {"cancelled", "exited"}
           \/ Paused /\ ~noticed /\ InBlock
-Tick == /\ now < Horizon /\ ~Urgent /\ now' = now + 1 /\ UNCHANGED <<conf, kvars, blockers, pausedAt>>
+Tick == /\ now < Horizon /\ ~Urgent /\ now' = now + 1 /\ fresh' = FALSE /\ UNCHANGED <<conf, kvars, blockers>>
 
 \* ---- laws (checked on the model itself; the traces are bound to the actions)
 \* "while paused nothing is listed or watched": a pause older than this instant has no response being read
